@@ -572,6 +572,13 @@ def generate_real_spherical_harmonics_scipy(l_max: int, theta: np.ndarray, phi: 
             f"theta and phi must be 1D arrays, got theta.ndim={theta.ndim}, phi.ndim={phi.ndim}"
         )
 
+    # SciPy assumes a polar angle in [0, pi]: map angles outside that range to the principal
+    # angles of the same point on the sphere, (theta, phi) -> (theta + pi, arccos(cos(phi))).
+    outside = (phi < 0) | (phi > np.pi)
+    if np.any(outside):
+        theta = np.where(outside & (np.sin(phi) < 0), theta + np.pi, theta)
+        phi = np.where(outside, np.arccos(np.cos(phi)), phi)
+
     # sph_vals (i, j) corresponds to degree i and order j for all 0 <= i <= n and -m <= j <= m
     sph_vals = sph_harm_y_all(l_max, l_max, phi, theta)
 
